@@ -300,6 +300,37 @@ class LoopSpec:
         self.name = name
 
 
+class _GuardedSpec:
+    """A LoopSpec whose callbacks turn their own failures (a local of the
+    code that no longer exists, a value of an unexpected type) into
+    'unsupported': the contract does not fit this version of the code, which
+    is undecided, not a crash and not a violation."""
+
+    def __init__(self, spec):
+        self._spec = spec
+
+    def __getattr__(self, name):
+        v = getattr(self._spec, name)
+        if name == 'havoc':
+            return {k: self._wrap(f, 'havoc') for k, f in v.items()}
+        if callable(v):
+            return self._wrap(v, name)
+        return v
+
+    @staticmethod
+    def _wrap(f, what):
+
+        def g(*a, **k):
+            try:
+                return f(*a, **k)
+            except (KeyError, AttributeError, TypeError, IndexError) as ex:
+                raise Unsupported(
+                    f'loop contract ({what}) does not fit the code: '
+                    f'{type(ex).__name__}: {ex}')
+
+        return g
+
+
 class Engine:
 
     def __init__(self, repo=REPO):
@@ -771,6 +802,7 @@ class Engine:
 
     def exec_loop_inv(self, s, spec, env, mod, clsctx):
         """Invariant-based treatment: entry, arbitrary iteration, exit."""
+        spec = _GuardedSpec(spec)
         p = cur()
         key = s._loop_key
         nm = spec.name or f'{key[0]}[{key[1]}]'
